@@ -89,6 +89,10 @@ func (i *interpreter) tryIntrinsic(fr *frame, fn *ssa.Function, args []value) (v
 type noopObj struct{}
 
 func noopZero(t types.Type) value {
+	if sig, ok := t.Underlying().(*types.Signature); ok {
+		// a no-op callee that returns a function (e.g. `defer metrics.Measure(...)()`) returns a no-op function
+		return &hostFunc{name: "noop", f: func(i *interpreter, args []value) value { return zeroResultsOf(sig) }}
+	}
 	if it, ok := t.Underlying().(*types.Interface); ok && it.NumMethods() > 0 && !isErrorType(t) {
 		return iface{t: t, v: noopObj{}}
 	}
